@@ -164,6 +164,9 @@ def run(chk, repo, tier):
                 if is_app(a, 'meshgrid'):
                     return all(isinstance(x, Poly) and x.single_atom() is not None and is_app(x.single_atom(), 'fft.fftfreq')
                                for x in a[2][:2])
+                if is_app(a, ('numpy.broadcast_arrays', 'broadcast_arrays', 'ix_', 'numpy.ix_')):
+                    return bool(a[2]) and all(isinstance(x, Poly) and x.single_atom() is not None and is_freq(x.single_atom())
+                                              for x in a[2] if not isinstance(x, Tup))
                 if a[0] == 'idx':
                     return is_freq(a[1])
                 if a[0] == 'poly':
